@@ -211,6 +211,10 @@ type Config struct {
 	RecvFresh bool
 	// ParamNames: symbols for parameters are their source names instead of p0, p1, ... (struct mode constructors).
 	ParamNames bool
+	// ParamFresh: every enumerated path starts from a deep copy of ParamValues (sharing between them preserved).
+	ParamFresh bool
+	// Opaque handles method calls on opaque values (data sets, thread pools) before the built-in treatment.
+	Opaque OpaqueHook
 }
 
 type Interp struct {
@@ -227,6 +231,9 @@ type Interp struct {
 	fd      *ast.FuncDecl
 	loopVar map[types.Object]bool
 	loopDepth int
+	// ctl: pending "continue"/"break" inside a concretely unrolled loop
+	ctl      string
+	unrolled int
 	// Loops currently open (outermost first), for events recorded inside loops.
 	loops []LoopCtx
 	curPos    token.Pos
@@ -310,6 +317,14 @@ func (it *Interp) runOnce(fd *ast.FuncDecl) (p *Path, und *Undecided) {
 	}
 	it.path.Recv = recv
 	k := 0
+	pvals := it.cfg.ParamValues
+	if it.cfg.ParamFresh && pvals != nil {
+		memo := map[interface{}]Value{}
+		pvals = map[string]Value{}
+		for n, v := range it.cfg.ParamValues {
+			pvals[n] = DeepCopy(v, memo)
+		}
+	}
 	for _, f := range fd.Type.Params.List {
 		for _, n := range f.Names {
 			obj := it.info.Defs[n]
@@ -318,7 +333,7 @@ func (it *Interp) runOnce(fd *ast.FuncDecl) (p *Path, und *Undecided) {
 				name = n.Name
 			}
 			v := it.paramValue(obj.Type(), name, n.Pos())
-			if pv, ok := it.cfg.ParamValues[n.Name]; ok {
+			if pv, ok := pvals[n.Name]; ok {
 				v = pv
 			}
 			for _, a := range it.cfg.Alias {
@@ -485,7 +500,7 @@ func (it *Interp) block(list []ast.Stmt) {
 		}
 	}()
 	for _, s := range list {
-		if it.done {
+		if it.done || it.ctl != "" {
 			return
 		}
 		it.stmt(s)
@@ -624,6 +639,14 @@ func (it *Interp) stmt(s ast.Stmt) {
 		it.block(x.List)
 	case *ast.ForStmt:
 		it.forStmt(x)
+	case *ast.RangeStmt:
+		it.rangeStmt(x)
+	case *ast.BranchStmt:
+		if it.unrolled > 0 && x.Label == nil && (x.Tok == token.CONTINUE || x.Tok == token.BREAK) {
+			it.ctl = x.Tok.String()
+			return
+		}
+		it.undecided(s.Pos(), "statement %T", s)
 	case *ast.EmptyStmt:
 	default:
 		it.undecided(s.Pos(), "statement %T", s)
@@ -690,6 +713,9 @@ func (it *Interp) assignTo(lhs ast.Expr, v Value, define bool) {
 		switch b := base.(type) {
 		case *SliceVal:
 			b.Cells[it.evalTerm(x.Index).String()] = it.toTerm(v, lhs.Pos())
+			return
+		case *ListVal:
+			b.Elems[it.listIndex(b, x.Index)] = v
 			return
 		case *Container:
 			it.curPos = x.Pos()
@@ -877,6 +903,9 @@ func (it *Interp) eval(e ast.Expr) Value {
 				return sym.Zero()
 			}
 			return sym.Fn("cell", sym.Sym(k))
+		}
+		if l, ok := base.(*ListVal); ok {
+			return l.Elems[it.listIndex(l, x.Index)]
 		}
 		if a, ok := base.(*ArrVal); ok {
 			idx := it.evalTerm(x.Index)
@@ -1103,6 +1132,12 @@ func (it *Interp) call(call *ast.CallExpr) Value {
 				if sl, ok := v.(*SliceVal); ok {
 					return sl.Len
 				}
+				if l, ok := v.(*ListVal); ok {
+					return sym.Int(int64(len(l.Elems)))
+				}
+				if _, ok := v.(NilVal); ok {
+					return sym.Zero()
+				}
 			case "make":
 				if len(call.Args) == 2 {
 					return &SliceVal{Len: it.evalTerm(call.Args[1]), Cells: map[string]*sym.Term{}, Zero: true}
@@ -1154,29 +1189,13 @@ func (it *Interp) toTerm(v Value, pos token.Pos) *sym.Term {
 }
 
 func (it *Interp) callClosure(cl *Closure, call *ast.CallExpr) Value {
-	if it.depth > 8 {
-		it.undecided(call.Pos(), "closure depth")
+	var args []Value
+	for _, a := range call.Args {
+		args = append(args, it.eval(a))
 	}
-	saveEnv, saveDone, saveRet := it.env, it.done, it.ret
-	frame := map[types.Object]Value{}
-	k := 0
-	if cl.Lit.Type.Params != nil {
-		for _, f := range cl.Lit.Type.Params.List {
-			for _, n := range f.Names {
-				frame[it.info.Defs[n]] = it.eval(call.Args[k])
-				k++
-			}
-		}
-	}
-	it.env = append(append([]map[types.Object]Value{}, cl.Env...), frame)
-	it.done, it.ret = false, nil
-	it.depth++
-	it.block(cl.Lit.Body.List)
-	it.depth--
-	r := it.ret
-	it.env, it.done, it.ret = saveEnv, saveDone, saveRet
-	if it.path.Panic {
-		it.done = true
+	r := it.Apply(cl, args, call.Pos())
+	if _, isNil := r.(NilVal); isNil && (cl.Lit.Type.Results == nil || len(cl.Lit.Type.Results.List) == 0) {
+		return nil
 	}
 	return r
 }
@@ -1291,6 +1310,15 @@ func (it *Interp) callMethod(fn *types.Func, call *ast.CallExpr) Value {
 	case *StructVal:
 		return it.structMethod(rv, fn, call)
 	case *OpaqueVal:
+		if it.cfg.Opaque != nil {
+			var args []Value
+			for _, a := range call.Args {
+				args = append(args, it.eval(a))
+			}
+			if v, ok := it.cfg.Opaque(it, rv, name, args, call); ok {
+				return v
+			}
+		}
 		return it.opaqueMethod(rv, fn, call)
 	case *LocalVec:
 		return it.localVecMethod(rv, name, call)
@@ -1729,10 +1757,17 @@ func (it *Interp) forStmt(x *ast.ForStmt) {
 					a, b := cl.Num().Int64(), ch.Num().Int64()
 					if b-a < 16 {
 						delete(it.loopVar, obj)
+						it.unrolled++
 						for v := a; v <= b && !it.done; v++ {
 							it.setVar(obj, sym.Int(v), true)
 							it.block(x.Body.List)
+							if it.ctl == "break" {
+								it.ctl = ""
+								break
+							}
+							it.ctl = ""
 						}
+						it.unrolled--
 						return
 					}
 				}
